@@ -1336,7 +1336,7 @@ def declare_rules(ck):
     ck.rule("E7.attr-value-used",
             "a field of a parser class that create() fills with the text of an attribute is read by some member function of the class "
             "(used, validated or handed on): a value that is stored and never looked at is neither checked nor applied (input class: a root "
-            "markup whose mesh=\"...\" declaration contradicts the <Mesh type=...> it contains)", 7)
+            "markup whose mesh=\"...\" declaration contradicts the <Mesh type=...> it contains; an <Extrude origin=...> whose parsed origin no branch hands to the chart)", 27)
     ck.rule("E7.sibling-forwarding",
             "sibling branches of one parser's markup() that build the same kind of object (`new Extrude<Mesh, Circle>` / `new Extrude<Mesh, "
             "Bezier>`: one class template) hand over the same parsed attribute fields: a field that create() parsed and that one branch reads "
@@ -3504,6 +3504,19 @@ def name_tags(fs, name_param):
     return out
 
 
+def helper_constructions(W, g, depth=0):
+    """classes of the child parsers a member helper constructs with std::make_shared (own helpers followed)"""
+    out = []
+    for c in g.nodes():
+        if c.get("k") == "Call" and c.get("callee") == "std::make_shared":
+            out.append(first_targ(c.get("cfull") or ""))
+        elif c.get("k") == "MCall" and (c.get("obj") is None or strip(c["obj"]).get("k") == "This") and depth < 2:
+            h = W.resolve(c, g)
+            if h is not None and h.body is not None and h is not g:
+                out += helper_constructions(W, h, depth + 1)
+    return out
+
+
 def reader_children(W, pc_by_cls, fn, name_param=None, depth=0):
     """{tag name: parser class string} accepted by a markup() body (delegations followed).  A child parser is accepted for tag X
     if it is constructed (std::make_shared) where `name == "X"` is a must-fact - whatever the spelling of the dispatch
@@ -3526,6 +3539,23 @@ def reader_children(W, pc_by_cls, fn, name_param=None, depth=0):
                             out[t] = cls
                 elif e.facts_at(c) is not None:
                     out.setdefault("?", cls)
+    # a member helper called where `name == "X"` holds constructs the child parser for X (`return _create_extrude<Circle, ...>();`)
+    if fn.cfg is not None and name_param is not None and depth < 3:
+        e = W.ecfg(fn)
+        for c in fn.nodes():
+            if c.get("k") == "MCall" and (c.get("obj") is None or strip(c["obj"]).get("k") == "This"):
+                g = W.resolve(c, fn)
+                if g is None or g.body is None or g is fn or any(strip(a) is not None and strip(a).get("k") == "Ref" and strip(a).get("n") == name_param for a in c.get("a", [])):
+                    continue
+                made = helper_constructions(W, g)
+                if not made:
+                    continue
+                tags = name_tags(e.facts_at(c), name_param)
+                for t in tags:
+                    if t not in out or (out[t] or "").startswith("FEAT::Xml::DummyParser"):
+                        out[t] = made[0]
+                if not tags and e.facts_at(c) is not None:
+                    out.setdefault("?", made[0])
     # delegation: a call that receives the name parameter
     for n in fn.nodes():
         if n.get("k") in ("Call", "MCall") and n.get("callee") != "std::make_shared":
@@ -4271,6 +4301,14 @@ def rule_parsed_conversion(ck, W, facts):
                 what = ("`%s` (line %s, %s)" % (render(c0)[:30], c0.get("l"), g0.name))
                 in_f = [c for g, c in convs if g is f]
                 sus = suspects(W, e, in_f[0], vars_of(tgt)) if in_f else suspects(W, e, None, vars_of(tgt), anywhere=True)
+                if field:
+                    # a member helper called by the callback that compares the field may perform the rejection in a form whose facts
+                    # did not reach this point (e.g. against a value computed in the helper)
+                    for h in W.helpers_of(f) + [h_ for n_ in f.nodes() if n_.get("k") == "MCall" and (n_.get("obj") is None or strip(n_["obj"]).get("k") == "This")
+                                                for h_ in [W.resolve(n_, f)] if h_ is not None and h_.cfg is not None and h_ is not f]:
+                        if any(cmp_parts(x) is not None and ("@" + strip(tgt)["n"]) in vars_of(x) and any(not v.startswith("@") for v in vars_of(x))
+                               for x in h.nodes() if x.get("k") in ("Bin", "OpCall")):
+                            sus = sus + ["%s()" % h.name]       # (comparisons over fields and constants only are in the helper's summary)
                 msg = ("the parsed %s value %s is converted to %s in %s without a rejection that bounds it %s (%s): %s" % (
                     "unsigned" if kind == "u" else "signed", X, "a signed type" if kind == "u" else "an unsigned type", what,
                     "from above" if kind == "u" else "to non-negative values", "; ".join(where[:2]),
@@ -4302,6 +4340,8 @@ def rule_parse_sign(ck, W, facts):
         return
     probs, unk = [], []
     for g in insts:
+        resolve_const_locals(g)
+        norm_c11.resolve_aliases(g)
         nodes = list(g.nodes())
         minus = [x for x in nodes if (x.get("k") == "Char" and x.get("v") == 45) or (x.get("k") == "Str" and "-" in str(x.get("v")))]
         safe_conv = [x for x in nodes if x.get("k") in ("Call", "MCall") and re.search(r"from_chars|stoul|strtou", x.get("callee") or "")]
@@ -4311,7 +4351,7 @@ def rule_parse_sign(ck, W, facts):
             ok = False
             for b in e.el:
                 br = e.branch(b)
-                if br is None or not any(y in minus or any(z is y for z in minus) for y in walk(br[0])):
+                if br is None or not any(any(z is y for z in minus) for y in walk_init(br[0])):
                     continue
                 for s_ in e.succ.get(b, []):
                     reach = e.reachable(s_)
@@ -4354,6 +4394,28 @@ def rule_attr_value_used(ck, W, pcs, facts):
                     lhs, rhs = n["lhs"], n["rhs"]
                 elif n.get("k") == "OpCall" and n.get("op") == "=" and len(n.get("a", [])) == 2:
                     lhs, rhs = n["a"][0], n["a"][1]
+                if n.get("k") == "MCall" and n.get("callee") == "FEAT::String::parse" and n.get("a") and is_this_field(n["a"][0]):
+                    # a field filled by parsing (a token of) an attribute
+                    Kp = trace_attr(create, n.get("obj"))
+                    o_ = strip(n.get("obj"))
+                    if Kp is None and o_ is not None and o_.get("k") == "MCall" and strip(o_.get("obj")) is not None and strip(o_["obj"]).get("k") == "Ref":
+                        li_ = local_init(create, strip(o_["obj"])["n"])
+                        if li_ is not None and li_.get("k") == "MCall" and li_.get("callee") in SPLITS:
+                            Kp = trace_attr(create, li_.get("obj"))
+                    if Kp is not None:
+                        lhs, rhs = n["a"][0], None
+                        fld = strip(lhs)["n"]
+                        reads = 0
+                        for g in cfs:
+                            tg_ids = {id(strip(x["a"][0])) for x in g.nodes() if x.get("k") == "MCall" and x.get("callee") == "FEAT::String::parse" and x.get("a")}
+                            lhs_ids = {id(strip(x["lhs"])) for x in g.nodes() if x.get("k") == "Assign"}      # (`_yaw *= mult` updates the field, it does not consume it)
+                            reads += sum(1 for x in g.nodes() if x.get("k") == "Member" and x.get("n") == fld and is_this_field(x) and id(x) not in tg_ids and id(x) not in lhs_ids)
+                        for g in cfs:
+                            for i_ in (g.d.get("inits") or []):
+                                if i_.get("init") is not None and ("@" + fld) in vars_of(i_["init"]):
+                                    reads += 1
+                        res.setdefault((fld, Kp), []).append((reads, create, n))
+                    continue
                 if lhs is None or not is_this_field(lhs):
                     continue
                 # the right-hand side is (the text of) an attribute: attrs.find(K)->second / it->second with it = attrs.find(K) / *helper(attrs, K)
@@ -4486,6 +4548,51 @@ def parse_bindings(W, f, cfs):
     return out
 
 
+def constructions(f, cfs_all):
+    """objects a function creates: [(node, class, argument nodes, constructor Function or None)] for `new T(args)` and
+    std::make_unique / std::make_shared<T>(args) of a class with analysed constructors"""
+    out = []
+    for n in f.nodes():
+        if n.get("k") == "New" and (n.get("init") or {}).get("ccls"):
+            con = n["init"]
+            g = [g_ for g_ in cfs_all.get(con["ccls"], []) if g_.d.get("ctor") and g_.d.get("decl") == con.get("cdecl")]
+            out.append((n, con["ccls"], con.get("a", []), g[0] if g else None))
+        elif n.get("k") == "Call" and n.get("callee") in ("std::make_unique", "std::make_shared"):
+            cls = first_targ(n.get("cfull") or "")
+            ctors = [g_ for g_ in cfs_all.get(cls, []) if g_.d.get("ctor") and len(g_.params) == len(n.get("a", []))]
+            if cls in cfs_all and len(ctors) == 1:
+                out.append((n, cls, n.get("a", []), ctors[0]))
+    return out
+
+
+def ctor_fields(sx_cls, ctor, env, by_decl, depth=0):
+    """{field symbol name: sympy value} a constructor gives the fields for the parameter values `env` (delegation followed)"""
+    fields = {}
+    sc = sx_cls(ctor)
+    for it in ctor.d.get("inits") or []:
+        if it.get("member") and it.get("init") is not None:
+            try:
+                fields["o_" + re.sub(r"\W+", "_", it["member"])[:60]] = sc.sx(it["init"], env)
+            except Unknown:
+                pass
+        elif it.get("delegating") and depth < 2:
+            call = strip(it.get("init")) or {}
+            h = by_decl.get(call.get("cdecl"))
+            if h is None:
+                raise Unknown("delegation target not resolved")
+            env2 = {}
+            for p_, a in zip(h.params, call.get("a", [])):
+                env2[p_["n"]] = sc.sx(a, env)
+            fields.update(ctor_fields(sx_cls, h, env2, by_decl, depth + 1))
+    for env2, conds, _ in sc.run(env):
+        for lhs, val in env2.get("\0stores", []):
+            fields["o_" + re.sub(r"\W+", "_", norm(lhs))[:60]] = val
+        for k_, v_ in env2.items():
+            if isinstance(k_, str) and k_.startswith("@"):
+                fields["o_" + re.sub(r"\W+", "_", k_[1:])[:60]] = v_
+    return fields
+
+
 def rule_attr_formula_roundtrip(ck, W, pcs, facts):
     rule = "E11.attr-formula-roundtrip"
     import random
@@ -4502,18 +4609,14 @@ def rule_attr_formula_roundtrip(ck, W, pcs, facts):
             continue
         cfs = cfs_all.get(pc.cls, [])
         binds = None
-        for nw in create.nodes():
-            if nw.get("k") != "New" or not (nw.get("init") or {}).get("ccls"):
-                continue
-            con = nw["init"]
-            ccls = con["ccls"]
-            ctor = [g for g in cfs_all.get(ccls, []) if g.d.get("ctor") and g.d.get("decl") == con.get("cdecl")]
+        for nw, ccls, cargs, ctor0 in constructions(create, cfs_all):
+            ctor = [ctor0] if ctor0 is not None else []
             wr = [g for g in cfs_all.get(ccls, []) if g.name == "write" and g.body is not None and len(g.params) == 2]
             if not ctor or not wr:
                 continue
             if binds is None:
                 binds = parse_bindings(W, create, cfs)
-            args = [strip(a) for a in con.get("a", [])]
+            args = [strip(a) for a in cargs]
             bound = [(p_, binds.get(a["n"])) for p_, a in zip(ctor[0].params, args) if a is not None and a.get("k") == "Ref" and a.get("n") in binds]
             if not bound:
                 continue
@@ -4552,22 +4655,10 @@ def rule_attr_formula_roundtrip(ck, W, pcs, facts):
                 for u in unk or ["token binding of %s not resolved" % key0]:
                     seen.setdefault(("?", key0), []).append(u)
                 continue
-            sc = SymExec(ctor[0])
-            fields = {}
+            by_decl_ = {g_.d.get("decl"): g_ for g_ in cfs_all.get(ccls, []) if g_.d.get("decl") is not None}
             try:
-                for it in ctor[0].d.get("inits") or []:
-                    if it.get("member") and it.get("init") is not None:
-                        try:
-                            fields["o_" + re.sub(r"\W+", "_", it["member"])[:60]] = sc.sx(it["init"], env)
-                        except Unknown:
-                            pass
-                for env2, conds, _ in sc.run(env):
-                    for lhs, val in env2.get("\0stores", []):
-                        fields["o_" + re.sub(r"\W+", "_", norm(lhs))[:60]] = val
-                    for k_, v_ in env2.items():
-                        if isinstance(k_, str) and k_.startswith("@"):
-                            fields["o_" + re.sub(r"\W+", "_", k_[1:])[:60]] = v_
-            except Unknown as ex:
+                fields = ctor_fields(SymExec, ctor[0], env, by_decl_)
+            except (Unknown, TypeError) as ex:
                 seen.setdefault(("?", key0), []).append("constructor of %s: %s" % (cname, ex))
                 continue
             used = set()
@@ -4618,17 +4709,22 @@ def rule_callee_precondition(ck, W, facts):
     for f in reader_functions(facts):
         pv = None
         e = None
-        for nw in f.nodes():
-            if nw.get("k") != "New" or not (nw.get("init") or {}).get("ccls"):
+        for nw, ccls_, cargs, g in constructions(f, cfs_all):
+            if g is None or g.body is None:
                 continue
-            con = nw["init"]
-            g = [g_ for g_ in cfs_all.get(con["ccls"], []) if g_.d.get("ctor") and g_.d.get("decl") == con.get("cdecl") and g_.body is not None]
-            if not g:
-                continue
-            g = g[0]
+            con = {"ccls": ccls_, "a": cargs}
             if pv is None:
                 pv = parsed_vars(f)
-            for asr in g.nodes():
+            # assertions of the constructor and of a constructor it delegates to with its parameters passed through unchanged
+            asserts = [(asr, g, None) for asr in g.nodes()]
+            for it in g.d.get("inits") or []:
+                if it.get("delegating"):
+                    call = strip(it.get("init")) or {}
+                    h = [h_ for h_ in cfs_all.get(ccls_, []) if h_.d.get("decl") == call.get("cdecl") and h_.body is not None]
+                    if h:
+                        ren = {p_["n"]: strip(a)["n"] for p_, a in zip(h[0].params, call.get("a", [])) if strip(a) is not None and strip(a).get("k") == "Ref" and strip(a).get("dk") == "param"}
+                        asserts += [(asr, h[0], ren) for asr in h[0].nodes()]
+            for asr, gown, ren in asserts:
                 if not (asr.get("k") == "Call" and asr.get("callee") == "FEAT::assertion" and asr.get("a")):
                     continue
                 c = cmp_parts(asr["a"][0]) if strip(asr["a"][0]).get("k") in ("Bin", "OpCall") else None
@@ -4642,7 +4738,8 @@ def rule_callee_precondition(ck, W, facts):
                 if not (pl.get("k") == "Ref" and pl.get("dk") == "param") or lit(norm(pr)) is None:
                     continue
                 bnd = lit(norm(pr))
-                pi = [i for i, p_ in enumerate(g.params) if p_.get("n") == pl["n"]]
+                pname = pl["n"] if ren is None else ren.get(pl["n"])
+                pi = [i for i, p_ in enumerate(g.params) if p_.get("n") == pname]
                 if not pi or pi[0] >= len(con.get("a", [])):
                     continue
                 arg = strip(con["a"][pi[0]])
@@ -4837,6 +4934,13 @@ def rule_carrier_transfer(ck, W, facts):
                 ops.append((f, "move-ctor" if t.endswith("&&") else "copy-ctor"))
             elif f.name == "operator=":
                 ops.append((f, "move-assign" if t.endswith("&&") else "copy-assign"))
+        for kind in ("move-ctor", "move-assign"):
+            if not any(k_ == kind for _, k_ in ops):
+                # no hand-written body: implicitly defined, defaulted (memberwise transfer of every member) or deleted (no moved object exists)
+                any_fn = by_cls[cls][0]
+                for m in fields:
+                    ck.ob(rule, "%s::%s/%s" % (cls.replace("FEAT::Geometry::", "").replace("FEAT::", ""), kind, m), True,
+                          "no hand-written %s: memberwise" % kind, any_fn.file, any_fn.line, trivial=True)
         for f, kind in ops:
             other = f.params[0].get("n")
             if not other:
@@ -5433,6 +5537,29 @@ def branch_for_name(fn, tag):
             if tag in name_tags(facts, name_param):
                 stmts.append(n)
             facts = e._transfer_stmt(facts, n)
+    # a member helper called under the tag runs under it as well: its statements belong to the region
+    extra, seen_h = [], set()
+    work = list(stmts)
+    depth = 0
+    while work and depth < 40:
+        depth += 1
+        n = work.pop()
+        for x in walk(n):
+            if x.get("k") == "OpCall" and x.get("op") == "()" and x.get("cdecl") is not None and (x.get("ccls") == "<lambda>" or "lambda" in (x.get("callee") or "")):
+                hl = [g_ for g_ in fn.facts.functions if g_.d.get("decl") == x.get("cdecl") and g_.body is not None]
+                if hl and id(hl[0]) not in seen_h:
+                    seen_h.add(id(hl[0]))
+                    hs = hl[0].body.get("s", []) if hl[0].body.get("k") == "Block" else [hl[0].body]
+                    extra += hs
+                    work += hs
+            if x.get("k") == "MCall" and (x.get("obj") is None or strip(x["obj"]).get("k") == "This"):
+                h = W.resolve(x, fn)
+                if h is not None and h.body is not None and h is not fn and id(h) not in seen_h and h.cls == fn.cls and h.name not in PARSER_METHODS:
+                    seen_h.add(id(h))
+                    hs = h.body.get("s", []) if h.body.get("k") == "Block" else [h.body]
+                    extra += hs
+                    work += hs
+    stmts += extra
     if not stmts:
         return None
     return {"k": "Block", "s": stmts}
@@ -6197,14 +6324,16 @@ class SymExec:
                     try:
                         val = self.sx(n["rhs"], env)
                         cur = env.get(l["n"], self.sym("v_" + l["n"]))
-                        env[l["n"]] = {"=": val, "*=": cur * val, "+=": cur + val, "-=": cur - val, "/=": cur / val}.get(n["op"], val)
+                        op_ = n.get("op")
+                        env[l["n"]] = val if op_ == "=" else (cur * val if op_ == "*=" else cur + val if op_ == "+=" else cur - val if op_ == "-=" else cur / val if op_ == "/=" else val)
                     except Unknown:
                         env.pop(l["n"], None)
                 elif is_this_field(l):
                     try:
                         val = self.sx(n["rhs"], env)
                         cur = env.get("@" + l["n"], self.sym("f_" + l["n"]))
-                        env["@" + l["n"]] = {"=": val, "*=": cur * val, "+=": cur + val, "-=": cur - val, "/=": cur / val}.get(n["op"], val)
+                        op_ = n.get("op")
+                        env["@" + l["n"]] = val if op_ == "=" else (cur * val if op_ == "*=" else cur + val if op_ == "+=" else cur - val if op_ == "-=" else cur / val if op_ == "/=" else val)
                     except Unknown:
                         pass
                 else:
@@ -6361,7 +6490,9 @@ def rule_angles(ck, W, facts):
                     vals.add(sp.simplify(v / sp.Symbol("f_" + fld, real=True)))
             scales[fld] = vals
         setargs = None
-        for n in markup.nodes():
+        # the setter is called in markup() or in a member helper of the parser class that markup() delegates to
+        for n in [x for g_ in facts.functions if (g_.cls == markup.cls or (g_.full or "").startswith(markup.full + "::<lambda")) and g_.tk != "pattern" and g_.body is not None
+                  for x in g_.nodes()]:
             if n.get("k") == "MCall" and n.get("n") == sfn.name and len(n.get("a", [])) == len(sfn.params):
                 flds = [strip(a)["n"] if is_this_field(a) else None for a in n["a"]]
                 setargs = flds if setargs in (None, flds) else "?"
